@@ -3,22 +3,26 @@ the state that survives between loads, and the fork server that supplies *fresh
 process states*.
 
 A case (JSON) is
-  {"pool": [mmcfg…], "files": {name: text}, "ops": [op…]}
+  {"pool": [mmcfg…], "extras": [mmcfg…], "files": {name: text}, "histories": [[op…]…]}
   mmcfg = {"grammar": str, "opts": {...metamodel_from_str keyword options...},
            "classes": {rule: variant}, "objprocs": {rule: variant}, "modelprocs": [variant…],
-           "scope": None | "plain_instances" | "plain_importuri" | "fqn_importuri", "params": [name…]}
-  op    = ["str", k, text] | ["strp", k, text, {param: value}] | ["file", k, name] | ["new", mmcfg]
-          (k = index into the pool; every "new" appends a metamodel to the pool *during* the history)
+           "scope": None | "plain_instances" | "plain_importuri" | "fqn_importuri" | "fqn", "params": [name…]}
+  op    = ["str", k, text] | ["strp", k, text, {param: value}] | ["file", k, name] | ["new", k]
+          k = metamodel slot: pool entries first, then the extras; an extra exists in a history only
+          after its ["new", k]
 
 `run_case` (always executed in a process forked from the pristine server, which
 has imported textx and done nothing else) produces
 
-  hist[i]  outcome of op i inside the history  + the observable hidden state after it
-  r1[key]  outcome of the same load on the state "pool created, nothing loaded"   (DESIGN.md Reading)
-  r2[key]  outcome of the same load in a process that created only that metamodel (statement, literally)
+  runs[h].hist[i]  outcome of op i inside history h + the observable surviving state after it
+                   (every history runs in its own process, forked from the state "pool created")
+  r1[key]  outcome of the same load alone on the state "pool created, nothing loaded" (DESIGN.md Reading)
+  r2[key]  outcome of the same load in a process that created only that metamodel (statement, literally;
+           for pool metamodels: their first distinct load, for extras: every load)
+  mm_solo  outcome of creating each metamodel alone in a fresh process
 
 each reference in its own forked process.  Nothing here knows about the Lean side
-except `pool_dump`, which serialises the real parser models for the mirror.
+except `pool_dump` / `lean_material`, which serialise the real parser models for the mirror.
 """
 import json
 import os
@@ -58,7 +62,7 @@ def mk_class(rule, variant, log):
     """User classes.  Every variant accepts the rule's attributes as keyword arguments."""
 
     def init(self, **kw):
-        log.append(["init", rule, sorted(kw), short(kw.get("name"))])
+        log.append(["init", rule, sorted(kw), short(kw.get("name")), type(self).__dict__.get("_tx_instrumented")])
         if variant == "initraise" and kw.get("name") == "initboom":
             raise ValueError("initboom")
         for k, v in kw.items():
@@ -151,15 +155,6 @@ def build_mm(world, cfg):
         return mm, None, classes
     except Exception as e:  # noqa: BLE001 - every failure of the code under test is an observation
         return None, exc_view(e, world.tmp), classes
-
-
-def add_mm(world, cfg):
-    mm, err, classes = build_mm(world, cfg)
-    world.mms.append(mm)
-    world.mm_errs.append(err)
-    world.classes.append(classes)
-    world.cfgs.append(cfg)
-    del world.log[:]
 
 
 # ----------------------------------------------------------------------------
@@ -281,13 +276,14 @@ def _alarm(signum, frame):
     raise OpTimeout()
 
 
-def run_op(world, op, timeout=8):
-    """Perform one operation; returns (outcome, model | None, exception | None)."""
+def run_op(world, op, timeout=10):
+    """Perform one operation; returns (outcome, model | None, exception | None).
+    The limit is CPU time of this process (a loaded machine must not produce time-outs)."""
     del world.log[:]
     kind = op[0]
     model = exc = None
-    old = signal.signal(signal.SIGALRM, _alarm)
-    signal.alarm(timeout)
+    old = signal.signal(signal.SIGPROF, _alarm)
+    signal.setitimer(signal.ITIMER_PROF, timeout)
     try:
         if True:
             mm = world.mms[op[1]]
@@ -312,8 +308,8 @@ def run_op(world, op, timeout=8):
     except OpTimeout:
         out = {"other": "Timeout"}
     finally:
-        signal.alarm(0)
-        signal.signal(signal.SIGALRM, old)
+        signal.setitimer(signal.ITIMER_PROF, 0)
+        signal.signal(signal.SIGPROF, old)
     out["log"] = [list(x) for x in world.log]
     return out, model, exc
 
@@ -346,7 +342,7 @@ def is_tx_method(f):
     return "_replace_user_attr_methods_for_class" in getattr(f, "__qualname__", "")
 
 
-def observe(world, last_clone=None):
+def observe(world, last_clone=None, nm_pos=None):
     import textx.lang as L
 
     rules = {}
@@ -392,6 +388,7 @@ def observe(world, last_clone=None):
             "is_bp": last_clone is b,
             "misses": getattr(last_clone, "cache_misses", None),
             "hits": getattr(last_clone, "cache_hits", None),
+            "nm_pos": nm_pos,
         }
     return hid
 
@@ -552,36 +549,46 @@ def create_slot(world, k):
     del world.log[:]
 
 
-def lean_material(world, case, ops, clones):
-    """what the Lean mirror needs to replay this history: the real parser models (pool wide node
-    numbers), token tables of every text loaded from a string, the real parse trees."""
+def lean_material(world, case, ops, clones, full):
+    """what the Lean mirror needs to replay this history: the real parse trees with pool wide node
+    numbers and — once per case (`full`) — the real parser models and the token tables of every text
+    of the case.  Metamodels the history did not create are created now (all observations are done),
+    so that every history of a case numbers the nodes identically."""
     from harness import peg
 
     try:
+        created = [m is not None for m in world.mms]
+        for k in range(len(world.mms)):
+            if world.mms[k] is None and world.mm_errs[k] == {"skip": "not created"}:
+                create_slot(world, k)
         texts = {}
-        for op in ops:
-            if op[0] in ("str", "strp") and world.mms[op[1]] is not None:
-                texts.setdefault(op[1], [])
-                if op[2] not in texts[op[1]]:
-                    texts[op[1]].append(op[2])
-            if op[0] == "file" and world.mms[op[1]] is not None:
-                for fn in import_order(case["files"], op[2]):
-                    t = case["files"].get(fn)
-                    if t is not None:
-                        texts.setdefault(op[1], [])
-                        if t not in texts[op[1]]:
-                            texts[op[1]].append(t)
+        if full:
+            def add(k, t):
+                if world.mms[k] is not None:
+                    texts.setdefault(k, [])
+                    if t not in texts[k]:
+                        texts[k].append(t)
+            for hops in case["histories"]:
+                for op in hops:
+                    if op[0] in ("str", "strp"):
+                        add(op[1], op[2])
+                    elif op[0] == "file":
+                        for fn in import_order(case["files"], op[2]):
+                            if fn in case["files"]:
+                                add(op[1], case["files"][fn])
         pd, ids, objs = pool_dump(world, texts)
         trees = []
         for op, c in zip(ops, clones):
             trees.append(tree_of(world, op[1], c, ids) if (c is not None and op[0] != "new") else None)
-        pd["trees"] = trees
-        return pd
+        out = {"trees": trees, "nnodes": len(pd["nodes"]), "created": created}
+        if full:
+            out.update(pd)
+        return out
     except peg.Unsupported as e:
         return {"unsupported": str(e)[:200]}
 
 
-IMPORT_RE = re.compile(r"""^import\s+(["'])(.*?)\1""", re.M)
+IMPORT_RE = re.compile(r"""\bimport\s+(["'])(.*?)\1""")
 
 
 def import_order(files, main):
@@ -605,26 +612,28 @@ def import_order(files, main):
     return order
 
 
-def run_history(world, case, ops, lean):
+def run_history(world, case, ops, lean, full):
     hist, clones = [], []
     for op in ops:
         if op[0] == "new":
             del world.log[:]
             create_slot(world, op[1])
             out = {"created": world.mm_errs[op[1]] is None, "err": world.mm_errs[op[1]], "log": []}
-            c = None
+            c = exc = None
         else:
             out, model, exc = run_op(world, op)
             c = clone_of(model, exc)
         clones.append(c)
-        hist.append({"out": out, "hid": observe(world, c)})
+        nm = getattr(getattr(exc, "__cause__", None), "position", None) if exc is not None else None
+        hist.append({"out": out, "hid": observe(world, c, nm)})
     res = {"hist": hist}
     if lean:
-        res["lean"] = lean_material(world, case, ops, clones)
+        res["lean"] = lean_material(world, case, ops, clones, full)
     return res
 
 
 def run_case(case, tmp, lean=True):
+    os.chdir(tmp)  # metamodels with debug=True write .dot files into the current directory
     res = {}
     npool = len(case["pool"])
     distinct, seen = [], set()
@@ -673,7 +682,8 @@ def run_case(case, tmp, lean=True):
     res["r1"] = r1
 
     # --- the histories, each from the state "pool created, nothing loaded" ----------------
-    res["runs"] = [forked(lambda ops=ops: run_history(world, case, ops, lean)) for ops in case["histories"]]
+    res["runs"] = [forked(lambda ops=ops, i=i: run_history(world, case, ops, lean, i == 0))
+                   for i, ops in enumerate(case["histories"])]
     return res
 
 
